@@ -188,6 +188,15 @@ pub enum Chain {
   Testnet4,
 }
 
+/// stand-in for ord's OutputFormat (a field type of the real struct Options; never inspected)
+#[derive(Default, Debug, Clone, Copy, PartialEq, Deserialize)]
+pub enum OutputFormat {
+  #[default]
+  Json,
+  Yaml,
+  Minify,
+}
+
 /// stand-in for clap's parsed options (consumed only by Settings::from_options)
 pub struct Options {
   pub placeholder: u8,
@@ -244,6 +253,20 @@ pub mod settings_shim {
     }
   }
 
+  /// `.with_context(|| format!(..))`: the message closure is not run (messages are not the subject)
+  pub trait WithContext<T> {
+    fn with_context<F: FnOnce() -> String>(self, f: F) -> Result<T>;
+  }
+
+  impl<T, E> WithContext<T> for std::result::Result<T, E> {
+    fn with_context<F: FnOnce() -> String>(self, _f: F) -> Result<T> {
+      match self {
+        Ok(t) => Ok(t),
+        Err(_) => Err(Error::msg_static("context")),
+      }
+    }
+  }
+
   impl From<&'static str> for Error {
     fn from(m: &'static str) -> Self {
       Error::msg_static(m)
@@ -291,6 +314,21 @@ impl System {
   }
 }
 
+impl FromStr for Chain {
+  type Err = Error;
+
+  fn from_str(s: &str) -> Result<Self> {
+    match s {
+      "mainnet" => Ok(Self::Mainnet),
+      "regtest" => Ok(Self::Regtest),
+      "signet" => Ok(Self::Signet),
+      "testnet" => Ok(Self::Testnet),
+      "testnet4" => Ok(Self::Testnet4),
+      _ => Err(Error::msg_static("invalid chain")),
+    }
+  }
+}
+
 impl Chain {
   pub fn join_with_data_dir(self, data_dir: impl AsRef<std::path::Path>) -> PathBuf {
     match self {
@@ -313,8 +351,8 @@ impl Chain {
   }
 }
 
-/// placeholders for the Settings constructors that read clap/env/the OS; the checks replace
-/// them by stated stubs
+/// placeholder for Settings::from_options inside merge (the real one is decided separately through
+/// options_extract::FromOptions); the checks replace it by a stated stub
 impl Settings {
   pub fn from_options(_options: Options) -> Self {
     #[cfg(test)]
@@ -323,19 +361,12 @@ impl Settings {
     }
     Self::default()
   }
-
-  pub fn from_env(_env: BTreeMap<String, String>) -> Result<Self> {
-    #[cfg(test)]
-    if let Some(b) = settings_replay::with(|s| s.b.clone()) {
-      return Ok(b);
-    }
-    Ok(Self::default())
-  }
 }
 
 #[cfg(test)]
 pub mod settings_replay;
 
+pub mod options_extract; // GENERATED: real struct Options (clap attributes removed) + Settings::from_options
 pub mod settings_extract; // GENERATED: real struct Settings + Settings::merge + Settings::or
 
 // ---- real files (copied from /repo/src at run time) ----
